@@ -2,7 +2,7 @@
    goroutine of lintWithRegoRules and the parser goroutine of InputFromPaths keep every access
    to their shared variables inside one critical section, and what they write there is what
    Model/Sched.v calls merge / imerge.  Discharged by computation on every run. *)
-From Regal Require Import Model.Sched Gen.LinterShape.
+From Regal Require Import Model.Sched Model.BaseCache Gen.LinterShape.
 
 Definition lint_prog : list (stmt lloc) := lint_prog_of lint_worker_mutex lint_worker_shape.
 Definition input_prog : list (stmt iloc) := input_prog_of input_worker_mutex input_worker_shape.
@@ -17,4 +17,12 @@ Lemma input_shape_ok :
   input_worker_found = true /\
   all_shared_writes_locked iloc_eqb input_prog = true /\
   cs_writes input_prog = [IErrors; IFiles].
+Proof. vm_compute. repeat split. Qed.
+
+Definition cache_get_prog : list (stmt cloc) := cache_prog_of cache_get_mutex cache_get_shape.
+Definition cache_put_prog : list (stmt cloc) := cache_prog_of cache_put_mutex cache_put_shape.
+
+Lemma cache_shapes_ok :
+  cache_get_found = true /\ cache_method_locked cache_get_prog = true /\
+  cache_put_found = true /\ cache_method_locked cache_put_prog = true.
 Proof. vm_compute. repeat split. Qed.
